@@ -78,7 +78,15 @@ def render(v):
     if isinstance(v, (int, float)):
         if float(v) == int(v):
             return str(int(v))
-        return repr(float(v))
+        text = repr(float(v))
+        if 'e' in text:
+            # (python's notation for small numbers is not Excel's)
+            import decimal
+            mantissa, exponent = text.split('e')
+            if -10 < int(exponent) < 0:
+                return format(decimal.Decimal(text), 'f')
+            return f'{mantissa}E{int(exponent):+03d}'
+        return text
     return v
 
 
